@@ -181,6 +181,7 @@ def r1_decorator(program, rep):
               construct="call after overlay", node=calls[0])
     # Required scan raises before the call
     okr = False
+    guarded_raise = False
     E = ("elem", ("items", D))
     if not any(raise_name(r) == "TypeError" for r in raises_of(fn)):
         raise AnalysisError("decorator wrapper: the check for parameters "
@@ -194,6 +195,7 @@ def r1_decorator(program, rep):
         if (mk_cmp("Is", ("comp", E, 1), ("global", "Required")), True) \
                 not in f:
             continue
+        guarded_raise = True
         lp = r._parent
         while lp is not None and not isinstance(lp, ast.For):
             lp = lp._parent
@@ -203,12 +205,25 @@ def r1_decorator(program, rep):
         # nothing else guards the raise, and no iteration is skipped
         pre = T.all_facts(cfg.stmt_node[id(lp)])
         extra = [x for x in f if x not in pre]
-        no_skip = not any(isinstance(x, (ast.Break, ast.Continue))
-                          for x in ast.walk(lp))
+        # no iteration with a value still Required gets past the raise
+        REQ = (mk_cmp("Is", ("comp", E, 1), ("global", "Required")), True)
+        HR = T.under(REQ)
+        body_ = [s_ for s_ in head.succ if s_.label == "forbody"]
+        no_skip = not any(isinstance(x, ast.Break) for x in ast.walk(lp)) \
+            and bool(body_) and HR.cfg.must_pass(
+                body_[0], lambda n_: n_ is rn,
+                targets=[head, cfg.exit],
+                avoid=[cfg.nodes[i] for i in HR.dead])
         okr = T.term(lp.iter, head) == ("items", D) and len(extra) == 1 \
             and no_skip and cfg.dominates(head, cn) and (
                 cfg.dominates(last, head) or
                 (cfg.reaches(last, head) and not cfg.reaches(head, last)))
+    if not okr and not guarded_raise:
+        raise AnalysisError("decorator wrapper: no TypeError is raised "
+                            "directly under 'value is Required' while "
+                            "scanning the resolved keywords; another form "
+                            "of the check (e.g. collecting the missing "
+                            "names first) is not analysed")
     rep.check(okr, "C18-R1", inst, "after the overlay, any parameter still "
               "Required raises TypeError before the method is called",
               construct="required check", node=fn)
@@ -284,9 +299,18 @@ def _padding(TD, t, NAMES, SPEC):
             cnt[3][0] != "call" or cnt[3][1] != ("global", "len"):
         return False
     d = cnt[3][2][0]
-    if b != ("call", ("global", "list"), (d,), ()):
+    if b not in (("call", ("global", "list"), (d,), ()), d):
         return False
-    alts = set(plain(x) for x in alternatives(d))
+
+    def raw(x):
+        x = plain(x)
+        if x[0] == "call" and x[1] == ("global", "list") and \
+                len(x[2]) == 1 and not x[3]:
+            return raw(x[2][0])
+        return x
+    # the defaults given: the specification's own, as they are or copied
+    # into a list, or nothing when there are none
+    alts = set(raw(x) for x in alternatives(d))
     return alts == {("comp", SPEC, 3), ("list",)}
 
 
@@ -694,10 +718,21 @@ def r5_connection(program, rep):
     ETH = ("call", ("global", "spinn5_local_eth_coord"),
            (("param", ps[1]), ("param", ps[2]), W, H, ("star", R)), ())
     cs = calls_in(gc, "spinn5_local_eth_coord")
+    split_gc = any(getattr(h_, "_virtual", False) for h_ in ast.walk(gc)
+                   if h_ is not gc) or any(
+        isinstance(n_, (ast.For, ast.While)) for n_ in ast.walk(gc))
+    if split_gc and not (len(cs) == 1 and T.term(cs[0]) == ETH):
+        # the look-up was moved into helpers / a loop over candidate keys:
+        # this part of the rule reads the plain two-step form only
+        rep.undecided("C18-R5", "MachineController._get_connection chooses "
+                      "the connection through helpers or a loop over "
+                      "candidate keys; that form is not analysed")
     ok = len(cs) == 1 and T.term(cs[0]) == ETH
-    rep.check(ok, "C18-R5", inst, "the board's Ethernet chip is computed "
-              "from (x, y, width, height, *root_chip) in the geometry "
-              "function's order", construct="eth coord arguments", node=gc)
+    if not (split_gc and not ok):
+        rep.check(ok, "C18-R5", inst, "the board's Ethernet chip is "
+                  "computed from (x, y, width, height, *root_chip) in the "
+                  "geometry function's order",
+                  construct="eth coord arguments", node=gc)
     LOCAL = ("get", CONNS, ETH)
     DEFAULT = ("item", CONNS, ("const", None))
     known = [(is_none(W), False), (is_none(H), False), (is_none(R), False)]
@@ -713,9 +748,10 @@ def r5_connection(program, rep):
         hyps = list(known)
         hyps[k] = (hyps[k][0], True)
         okr = okr and set(live_returns(T.under(*hyps))) == {DEFAULT}
-    rep.check(okr, "C18-R5", inst, "the connection of the target's board is "
-              "used when known, else the initial connection",
-              construct="connection fallback", node=gc)
+    if not (split_gc and not ok):
+        rep.check(okr, "C18-R5", inst, "the connection of the target's "
+                  "board is used when known, else the initial connection",
+                  construct="connection fallback", node=gc)
     ss = program.get(MC + ":MachineController._send_scp")
     S = Terms(ss)
     ps = formals(ss)
@@ -822,32 +858,37 @@ def r5_connection(program, rep):
         if ct[0] in ("call", "callv") and ct[1][0] == "local" and \
                 ct[1][1] in B._nested:
             via_helper = B._nested[ct[1][1]]
-    if via_helper is not None:
-        # the look-up is in a helper: the keys it tries, in order
-        views = B.inners(via_helper)
-        if len(views) != 1:
-            raise AnalysisError("BMPController._send_scp: connection helper "
-                                "called from several places")
-        hv = views[0]
-        tried = None
-        for lp in ast.walk(via_helper):
-            if not isinstance(lp, ast.For):
+    # a loop over candidate keys (here or in a helper): the keys it tries,
+    # in order; it is left (return / break) as soon as a key has a connection
+    key_views = [(B, b)]
+    for sub_ in ast.walk(b):
+        if isinstance(sub_, ast.FunctionDef) and sub_ is not b:
+            try:
+                key_views.extend((v_, sub_) for v_ in B.inners(sub_))
+            except AnalysisError:
+                pass
+    tried = None
+    for hv, f_ in key_views:
+        for lp in ast.walk(f_):
+            if not isinstance(lp, ast.For) or _enclosing_def(lp) is not f_:
                 continue
             it = hv.term(lp.iter, hv.cfg.loop_head[id(lp)])
-            if it[0] != "tuple":
+            if it[0] != "tuple" or any(isinstance(x, ast.Continue)
+                                       for x in ast.walk(lp)):
                 continue
-            E = ("elem", it)
-            rets_ = [r for r in ast.walk(lp) if isinstance(r, ast.Return)
-                     and r.value is not None]
-            if len(rets_) == 1:
-                rn_ = hv.cfg.node_of(rets_[0])
-                rt_ = hv.term(rets_[0].value, rn_)
-                facts_ = hv.all_facts(rn_)
-                if rt_ in (("get", BCONNS, E), ("item", BCONNS, E)) and \
-                        (is_none(rt_), False) in facts_ and not any(
-                            isinstance(x, (ast.Break, ast.Continue))
-                            for x in ast.walk(lp)):
+            E = B._elem(it)
+            for x_ in ast.walk(lp):
+                if not isinstance(x_, (ast.Return, ast.Break)):
+                    continue
+                xn_ = [n__ for n__ in hv.cfg.nodes if n__.ast is x_]
+                if not xn_:
+                    continue
+                xn_ = xn_[0]
+                facts_ = hv.all_facts(xn_)
+                if any((is_none(g_), False) in facts_ for g_ in (
+                        ("get", BCONNS, E), ("item", BCONNS, E))):
                     tried = list(it[1:])
+    if tried is not None or via_helper is not None:
         if tried is None:
             raise AnalysisError("BMPController._send_scp: the connection "
                                 "helper is in a form that is not analysed")
@@ -861,6 +902,12 @@ def r5_connection(program, rep):
                           ((is_none(DIRECT), True), FRAME)):
             Hb = B.under(hyp)
             n_ = Hb.cfg.node_containing(snd[0])
+            if any(st_[0] in ("mu", "phi", "rec") for st_ in subterms(
+                    Hb.term(snd[0].func.value, n_))):
+                raise AnalysisError("BMPController._send_scp: the "
+                                    "connection is chosen by a loop over "
+                                    "candidate keys; that form is not "
+                                    "analysed here")
             okb = okb and Hb.live(n_) and \
                 Hb.term(snd[0].func.value, n_) == want
         n_ = B.cfg.node_containing(snd[0])
